@@ -506,6 +506,7 @@ var c10Programs = []struct{ name, src string }{
 	{"deep-nesting-repr", "x = []\nfor i in range(100000):\n    x = [x]\nprint(x)\n"},
 	{"deep-expression", "x = " + strings.Repeat("(", 2000) + "1" + strings.Repeat(")", 2000) + "\n"},
 	{"long-chain-add", "x = 1" + strings.Repeat(" + 1", 50000) + "\n"},
+	{"allocation-beyond-memory", "x = [0] * 10**11\n"},
 	{"generator-self-next", "def g():\n    yield next(it)\nit = g()\ntry:\n    next(it)\nexcept ValueError:\n    pass\n"},
 	{"sort-raises", "def k(x):\n    raise KeyError\ntry:\n    [3, 1].sort(key=k)\nexcept KeyError:\n    pass\n"},
 	{"exception-in-del-loop", "for i in range(3):\n    try:\n        raise ValueError(i)\n    except ValueError as e:\n        pass\n"},
